@@ -125,6 +125,11 @@ func (l *baseLeaf) URLPath(vals map[string]string, withOptional bool) string {
 		}
 	}
 
+	// The route without its only, optional segment is the root path.
+	if buf.Len() == 0 {
+		buf.WriteString("/")
+	}
+
 	pairs := make([]string, 0, len(vals)*2)
 	for k, v := range vals {
 		pairs = append(pairs, "{"+k+"}", v)
